@@ -51,12 +51,12 @@ theorem append_step (s : Sys) (p : Path) (acc : Bytes) (fs : List Frame) (h : Ra
     | mk os' ok =>
       have hfds' : os'.fds = s.os.fds := by simpa [hres] using hfds
       have hfiles' : os'.files = wrote s.os.files p r.offset (packetBytes fs) k := by
-        have := hfiles; unfold fileWrite at hres; rw [hres] at this; exact this
+        have := hfiles; rw [← fileWrite_files_eq, hres] at this; exact this
       cases ok with
       | true =>
         left
         have hk' : k = (packetBytes fs).length := by
-          apply hk; unfold fileWrite at hres; rw [hres]
+          apply hk; rw [← fileWrite_snd, hres]
         have hne : (packetBytes fs).length ≠ 0 := fun h0 => hempty (List.eq_nil_of_length_eq_zero h0)
         refine ⟨hc, _, rfl, rfl, hopen, ?_, ?_, ?_⟩
         · simp only [hfds']; exact hlk
